@@ -9,7 +9,6 @@ M = [
  ("C02", "energy-loop-force", "_dlpoly_writeTABLE.py", "l.append(potential.energy(r))", "l.append(_calculateForce(potential, r))"),
  ("C02", "field-13.6e", "_dlpoly_writeTABLE.py", 'u" % 14.7e" * 3', 'u" % 13.6e" * 3'),
  ("C02", "nr-mod4-config-off", "config/_tabulation_factories.py", "if cutoffs.nr % 4 != 0:", "if False and cutoffs.nr % 4 != 0:"),
- ("C17", "dlpoly-header-first", "_dlpoly_writeTABLE.py", "_writeTableHeader(meshResolution, cutoff, gridPoints, outputbuilder)", "_writeTableHeader(meshResolution, cutoff, gridPoints, out)"),
  ("C08", "deriv-default", "_multi_range_potential_form.py", "    if rt is None:\n      return 0.0\n    return rt.deriv(r)", "    if rt is None:\n      return self.default_value + 1e-9\n    return rt.deriv(r)"),
  ("C11", "nr-lt-0", "config/_config_parser.py", "if not nr is None and nr <= 0:", "if not nr is None and nr < 0:"),
  ("C11", "dr-lt-0", "config/_config_parser.py", "if not dr is None and dr <= 0:", "if not dr is None and dr < 0:"),
@@ -37,6 +36,14 @@ M = [
  ("C12", "tabeam-unsorted-pairs", "_dlpoly_writeTABEAM.py", "for k in sorted(pairs):", "for k in pairs:"),
  ("C12", "refdata-shared-dict", "referencedata/_reference_data.py", "species_dat = dict(self.extra_data[species])", "species_dat = self.extra_data[species]"),
  ("C12", "revert-sorted-null-embed", "config/_eam_potential_builder.py", "for s in sorted(null_embed_species):", "for s in null_embed_species:"),
+ ("C19", "gulp-row-swapped", "pair_tabulation.py", 'row_template = u"{energy:.10f} {sepn:.10f}\\n"', 'row_template = u"{sepn:.10f} {energy:.10f}\\n"'),
+ ("C19", "gulp-header-dr", "pair_tabulation.py", "speciesB = pot.speciesB, cutoff= self.cutoff))", "speciesB = pot.speciesB, cutoff= self.dr))"),
+ ("C19", "adp-dipole-scaled", "eam_tabulation.py", "self.dipole_potentials, fp, scale_r=False)", "self.dipole_potentials, fp, scale_r=True)"),
+ ("C19", "excel-pair-unsorted", "pair_tabulation.py", 'k = "{}-{}".format(*sorted([p.speciesA, p.speciesB]))', 'k = "{}-{}".format(p.speciesA, p.speciesB)'),
+ ("C19", "funcfl-cutoff-nr", "_lammpsWriteEAM.py", "cutoff = dr * (nr - 1)", "cutoff = dr * nr"),
+ ("C17", "lammps-streams", "_lammps_writeTABLE.py", "    _writeSinglePotential(potential, minr, maxr, gridPoints, sbuild)\n    potlines.append(sbuild.getvalue())", "    _writeSinglePotential(potential, minr, maxr, gridPoints, out)"),
+ ("C17", "dlpoly-header-first", "_dlpoly_writeTABLE.py", "_writeTableHeader(meshResolution, cutoff, gridPoints, outputbuilder)", "_writeTableHeader(meshResolution, cutoff, gridPoints, out)"),
+ ("C17", "revert-gulp-buffer", "pair_tabulation.py", "      self._write_pot(pot, sbuild)", "      self._write_pot(pot, fp)"),
  ("C03", "setfl-nr-minus-1", "eam_tabulation.py", None, None),
 ]
 def main():
